@@ -680,7 +680,18 @@ def decorate_with_checker(func: CallableT) -> CallableT:
             "a reserved placeholder for keyword arguments in the condition."
         )
 
-    param_names = list(sign.parameters.keys())
+    # Only the parameters up to (and including) the variable positional parameter can be supplied positionally.
+    # The keyword-only parameters and the variable keyword parameter must not be matched against
+    # the positional arguments of a call.
+    param_names = []  # type: List[str]
+    for param in sign.parameters.values():
+        if param.kind in (
+            inspect.Parameter.KEYWORD_ONLY,
+            inspect.Parameter.VAR_KEYWORD,
+        ):
+            break
+
+        param_names.append(param.name)
 
     # Determine the default argument values
     kwdefaults = resolve_kwdefaults(sign=sign)
